@@ -33,6 +33,7 @@ use mc_core::serde_json::{json, Value};
 use mc_core::{rayon::prelude::*, run_check, Ctx, Level};
 use serde::{Deserialize, Serialize};
 use std::collections::BTreeMap;
+use std::sync::Mutex;
 
 #[derive(Serialize, Deserialize, Clone, Debug)]
 enum Case {
@@ -54,6 +55,45 @@ impl Stats {
     fn add(&mut self, k: &'static str, n: u64) {
         *self.c.entry(k).or_insert(0) += n;
     }
+}
+
+struct Found {
+    nodes: usize,
+    text: String,
+    family: String,
+    key: String,
+    what: String,
+    case: Value,
+}
+
+/// Family of a failing case: configuration kind + the set of node kinds in the tree.
+fn family_of(cfg: &str, e: &E) -> String {
+    fn kinds(e: &E, out: &mut Vec<String>) {
+        let k = match e {
+            E::Col(_) | E::Lit(_) => None,
+            E::Bin(_, op, _) => Some(format!("{op:?}")),
+            E::Not(_) => Some("Not".into()),
+            E::Neg(_) => Some("Neg".into()),
+            E::Is(_, k) => Some(format!("Is{k:?}")),
+            E::In { neg, .. } => Some(if *neg { "NotIn".into() } else { "In".into() }),
+            E::Between { .. } => Some("Between".into()),
+            E::Case { operand, .. } => Some(if operand.is_some() { "CaseOf".into() } else { "Case".into() }),
+            E::Cast { try_, .. } => Some(if *try_ { "TryCast".into() } else { "Cast".into() }),
+            E::Like { ci, .. } => Some(if *ci { "ILike".into() } else { "Like".into() }),
+            E::Fun(f, _) => Some(format!("{f:?}")),
+        };
+        if let Some(k) = k {
+            if !out.contains(&k) {
+                out.push(k);
+            }
+        }
+        e.for_children(&mut |c| kinds(c, out));
+    }
+    let mut ks = vec![];
+    kinds(e, &mut ks);
+    ks.sort();
+    let kind = if cfg.starts_with("simp:") { "simp" } else { cfg };
+    format!("{kind}:{}", ks.join("+"))
 }
 
 struct Viol {
@@ -606,16 +646,25 @@ fn explore(ctx: &Ctx) {
     ctx.assume("floats: +0.0 and -0.0 are the same value; NaN equals NaN");
     ctx.assume("the reference declines (no verdict) on NaN, on float text outside plain decimal syntax and on regex syntax outside its subset");
     ctx.count("expression_trees_generated", space.exprs.len() as u64);
+    let found: Mutex<Vec<Found>> = Mutex::new(vec![]);
     space.exprs.par_chunks(64).for_each(|chunk| {
         let mut st = Stats::default();
         for e in chunk {
-            if ctx.should_stop() {
+            if ctx.out_of_time() {
                 break;
             }
             let viols = check_expr(e, None, thorough, &mut st);
-            for v in viols {
+            // one expression = one finding: the first violating configuration
+            if let Some(v) = viols.into_iter().next() {
                 let case = Case::Expr { e: e.clone(), cfg: Some(v.cfg.clone()) };
-                ctx.violation(format!("{}|{}", v.cfg, e), v.what, serde_json::to_value(&case).unwrap());
+                found.lock().unwrap().push(Found {
+                    nodes: e.nodes(),
+                    text: e.to_string(),
+                    family: family_of(&v.cfg, e),
+                    key: format!("{}|{}", v.cfg, e),
+                    what: v.what,
+                    case: serde_json::to_value(&case).unwrap(),
+                });
             }
         }
         flush(ctx, st);
@@ -625,16 +674,54 @@ fn explore(ctx: &Ctx) {
     preds.par_chunks(256).for_each(|chunk| {
         let mut st = Stats::default();
         for p in chunk {
-            if ctx.should_stop() {
+            if ctx.out_of_time() {
                 break;
             }
             if let Some(what) = check_preds(p, &mut st) {
                 let case = Case::Preds { preds: p.clone() };
-                ctx.violation(format!("preds|{}", conj(p)), what, serde_json::to_value(&case).unwrap());
+                let whole = conj(p);
+                found.lock().unwrap().push(Found {
+                    nodes: whole.nodes(),
+                    text: whole.to_string(),
+                    family: "preds".into(),
+                    key: format!("preds|{whole}"),
+                    what,
+                    case: serde_json::to_value(&case).unwrap(),
+                });
             }
         }
         flush(ctx, st);
     });
+    // Report deterministically: group the failing cases into families (same
+    // configuration kind, same set of node kinds), and report the smallest case
+    // of each family, smallest families first.
+    let mut found = found.into_inner().unwrap();
+    found.sort_by(|a, b| (a.nodes, &a.text, &a.key).cmp(&(b.nodes, &b.text, &b.key)));
+    ctx.count("failing_expressions_total", found.len() as u64);
+    let mut fams: Vec<String> = vec![];
+    for f in &found {
+        if !fams.contains(&f.family) {
+            fams.push(f.family.clone());
+        }
+    }
+    ctx.count("failing_families", fams.len() as u64);
+    let mut per_family: BTreeMap<String, u64> = BTreeMap::new();
+    for f in &found {
+        *per_family.entry(f.family.clone()).or_insert(0) += 1;
+    }
+    if !found.is_empty() {
+        ctx.set_extra("failing_cases_per_family", json!(per_family));
+    }
+    let mut seen: Vec<String> = vec![];
+    for f in found {
+        if seen.contains(&f.family) {
+            continue;
+        }
+        seen.push(f.family.clone());
+        if seen.len() <= 40 {
+            ctx.violation(f.key, format!("[family {}] {}", f.family, f.what), f.case);
+        }
+    }
     if !skip_list().is_empty() {
         ctx.mark_capped(&format!("triage run: configurations skipped via C04_SKIP={:?}", skip_list()));
     }
